@@ -340,7 +340,13 @@ func vpH_c03_kinds() {
 	xv := vpStrUpTo(1, "x-z")
 	var step any
 	var want any
-	switch vpInt(0, 8) {
+	switch vpInt(0, 10) {
+	case 9: // keys of two kinds, the lower-ranked one first in the document: it is a command step, in normal form
+		step = vpMapOf("trigger", xv, "commands", []any{"a", "b"}, "xa", x)
+		want = map[string]any{"trigger": xv, "command": "a\nb", "xa": x}
+	case 10:
+		step = vpMapOf("block", xv, "wait", nil, "plugins", []any{"p#v1"})
+		want = map[string]any{"block": xv, "wait": nil, "command": "", "plugins": []any{map[string]any{"github.com/buildkite-plugins/p-buildkite-plugin#v1": nil}}}
 	case 0:
 		step, want = "wait", "wait"
 	case 1:
